@@ -55,6 +55,9 @@ CHECKS = {
  "C16": ("fault_enumeration", "exhaustive enumeration of malformed-input shapes and of single (and pairwise) I/O fault points, each under every subcommand",
          "every REUSE.toml key x 13 TOML value shapes (root and nested; key pairs), 15 broken TOML files, 15 dep5 cases, 11 hostile byte classes x {header, .license}, 5 LICENSES/ oddities, and an OSError (4 errnos) injected at the k-th project-file open for every k (every pair in thorough), each under up to 8 subcommands: exit status in {0,1,2}, no escaping exception, configuration errors name the file, other files still reported",
          "python-debian's own acceptance of odd dep5 files is not judged; network stubbed", "4/C16"),
+ "C19": ("model_checking", "exhaustive enumeration of request sets x LICENSES states x per-identifier network outcomes (deviation-bounded) + all 2-command histories, against a stub network",
+         "every request set (<=3 of 6 identifiers) x 3 LICENSES/ states x every assignment of 6 failure kinds to <=1 (quick) / <=2 (thorough) identifiers, invocation directory x VCS x --root, 13 option variants, every ordered pair of 6 download commands: only LICENSES/<id>.txt or --output created, nothing pre-existing altered, no partial file, exit status reflects failures, no URL for LicenseRef-, ID+ fetched as ID, lint clean after --all",
+         "network replaced by a stub of urllib.request.urlopen that records URLs", "4/C19"),
 }
 PENDING_REASON = "check not built yet in this session (design in DESIGN.md section 4); not claimed until its machinery exists"
 
